@@ -117,13 +117,14 @@ Lemma hop_ALT : hop H_ALT = true. Proof. reflexivity. Qed.
 Lemma strip_ensure_length p len h : strip (ensure_length p len h) = strip h.
 Proof.
   destruct p; cbn [ensure_length].
-  - apply strip_insert_hop, hop_CL.
+  - rewrite strip_remove_hop by reflexivity. apply strip_insert_hop, hop_CL.
   - destruct (hm_has H_CL h); [apply strip_insert_hop, hop_CL | reflexivity].
 Qed.
 
-Lemma strip_h1_connection h : strip (h1_connection h) = strip h.
+Lemma strip_h1_connection st h : strip (h1_connection st h) = strip h.
 Proof.
-  unfold h1_connection. destruct (assoc H_CONN h) as [v|].
+  unfold h1_connection. destruct (h1_close_delimited st h); [apply strip_insert_hop, hop_CONN|].
+  destruct (assoc H_CONN h) as [v|].
   - destruct (to_str_ok v && negb (beq v V_CLOSE)); [reflexivity | apply strip_insert_hop, hop_CONN].
   - apply strip_insert_hop, hop_CONN.
 Qed.
@@ -143,6 +144,12 @@ Proof.
     rewrite ?strip_append_hop by apply hop_ALT; reflexivity.
 Qed.
 
+Lemma head_only_eqv a c : resp_eqv a c -> resp_eqv (head_only a) (head_only c).
+Proof.
+  intros (Hv & Hs & Hh & Hb). unfold head_only. rewrite Hs.
+  destruct (ends_with_head (rs_status c)); repeat split; assumption.
+Qed.
+
 Definition oresp_eqv (a c : outcome resp) : Prop :=
   match a, c with
   | Ok x, Ok y => resp_eqv x y
@@ -151,8 +158,8 @@ Definition oresp_eqv (a c : outcome resp) : Prop :=
   | _, _ => False
   end.
 
-Lemma apply_sd_eqv checked error_page sd a c :
-  resp_eqv a c -> oresp_eqv (apply_sd checked error_page sd a) (apply_sd checked error_page sd c).
+Lemma apply_sd_eqv checked error_page vn sd a c :
+  resp_eqv a c -> oresp_eqv (apply_sd checked error_page vn sd a) (apply_sd checked error_page vn sd c).
 Proof.
   intros (Hv & Hs & Hh & Hb). unfold apply_sd.
   destruct sd as [range|e|]; cbn [oresp_eqv]; [| repeat split; assumption | exact I].
@@ -171,18 +178,19 @@ Qed.
 Section Parity.
   Variable checked : bool.
   Variable error_page : N -> resp.
+  Variable vn : list bytes.
   Variable pkg : N -> headers -> headers.
   Hypothesis Hpkg : pkg_oblivious pkg.
 
-  Notation sendX := (send checked error_page pkg).
+  Notation sendX := (send checked error_page vn pkg).
 
   Lemma send_parity secure1 alt m sd r :
     onorm (sendX H1 secure1 alt m sd r) = onorm (sendX H2 true alt m sd r).
   Proof.
     unfold send.
-    pose proof (apply_sd_eqv checked error_page sd _ _ (add_alt_svc_eqv secure1 true alt r)) as E.
-    destruct (apply_sd checked error_page sd (add_alt_svc secure1 alt r)) as [a|e|];
-      destruct (apply_sd checked error_page sd (add_alt_svc true alt r)) as [c|e'|];
+    pose proof (apply_sd_eqv checked error_page vn sd _ _ (head_only_eqv _ _ (add_alt_svc_eqv secure1 true alt r))) as E.
+    destruct (apply_sd checked error_page vn sd (head_only (add_alt_svc secure1 alt r))) as [a|e|];
+      destruct (apply_sd checked error_page vn sd (head_only (add_alt_svc true alt r))) as [c|e'|];
       cbn [oresp_eqv] in E; try contradiction; cbn [obind onorm]; [| subst; reflexivity | reflexivity].
     destruct E as (Hv & Hs & Hh & Hb).
     rewrite Hb in *. rewrite Hs in *.
@@ -195,7 +203,7 @@ Section Parity.
   (** the repaired HTTP/2 arm always gets its head past the h2 crate *)
   Lemma send_never_refused p secure alt m sd r : sendX p secure alt m sd r <> Ok WRefused.
   Proof.
-    unfold send. destruct (apply_sd checked error_page sd (add_alt_svc secure alt r)) as [a|e|]; cbn [obind];
+    unfold send. destruct (apply_sd checked error_page vn sd (head_only (add_alt_svc secure alt r))) as [a|e|]; cbn [obind];
       try discriminate.
     destruct p; [discriminate|]. rewrite h2_strip_accepted. discriminate.
   Qed.
@@ -210,7 +218,7 @@ Section Parity.
   Lemma send_head p secure alt sd r :
     sendX p secure alt M_HEAD sd r = odrop (sendX p secure alt M_GET sd r).
   Proof.
-    unfold send. destruct (apply_sd checked error_page sd (add_alt_svc secure alt r)) as [a|e|];
+    unfold send. destruct (apply_sd checked error_page vn sd (head_only (add_alt_svc secure alt r))) as [a|e|];
       cbn [obind odrop]; try reflexivity.
     rewrite sends_body_head.
     destruct p; [reflexivity|].
@@ -218,15 +226,22 @@ Section Parity.
   Qed.
 
   Lemma odrop_refused o : odrop o = Ok WRefused -> o = Ok WRefused.
-  Proof. destruct o as [[r| |]|e|]; cbn; intros H; try discriminate; reflexivity. Qed.
+  Proof. destruct o as [[r|r| |]|e|]; cbn; intros H; try discriminate; reflexivity. Qed.
 
   Lemma onorm_odrop o : onorm (odrop o) = odrop (onorm o).
-  Proof. destruct o as [[r| |]|e|]; reflexivity. Qed.
+  Proof. destruct o as [[r|r| |]|e|]; reflexivity. Qed.
 
   (** [send] hands the client a well-framed message (its [content-length] is [ensure_length]'s) *)
   Lemma send_not_broken p secure alt m sd r : sendX p secure alt m sd r <> Ok WBroken.
   Proof.
-    unfold send. destruct (apply_sd checked error_page sd (add_alt_svc secure alt r)) as [a|e|]; cbn [obind];
+    unfold send. destruct (apply_sd checked error_page vn sd (head_only (add_alt_svc secure alt r))) as [a|e|]; cbn [obind];
+      try discriminate.
+    destruct p; [discriminate|]. destruct (h2_refuses _); discriminate.
+  Qed.
+
+  Lemma send_not_closed p secure alt m sd r x : sendX p secure alt m sd r <> Ok (WClosed x).
+  Proof.
+    unfold send. destruct (apply_sd checked error_page vn sd (head_only (add_alt_svc secure alt r))) as [a|e|]; cbn [obind];
       try discriminate.
     destruct p; [discriminate|]. destruct (h2_refuses _); discriminate.
   Qed.
@@ -302,6 +317,7 @@ Section AnswerParity.
   Variable vary_header : request -> fat -> list (bytes * bytes).
   Variable checked : bool.
   Variable error_page : N -> resp.
+  Variable vary_rules : request -> list bytes.
   Variable pkg : N -> headers -> headers.
   Variable alt : option bytes.
   Variable sanitize : request -> outcome (option (N * N)).
@@ -310,7 +326,7 @@ Section AnswerParity.
   Hypothesis Hpkg : pkg_oblivious pkg.
 
   Notation answerX := (answer hstate compute cache_on ims_on parse_ims sanitize_ok prime negotiate vary_tuple
-                              vary_header checked error_page pkg alt sanitize encode hversion).
+                              vary_header checked error_page vary_rules pkg alt sanitize encode hversion).
 
   Lemma answer_parity secure1 st now r0 :
     onorm (answerX H1 secure1 st now r0) = onorm (answerX H2 true st now r0).
@@ -776,6 +792,7 @@ Section Streams.
   (** ---- on the wire ---- *)
   Variable checked : bool.
   Variable error_page : N -> resp.
+  Variable vary_rules : request -> list bytes.
   Variable pkg : N -> headers -> headers.
   Variable alt : option bytes.
   Variable sanitize : request -> outcome (option (N * N)).
@@ -786,8 +803,8 @@ Section Streams.
   Proof. intros (H1 & H2 & H3 & _). unfold l4_resp. rewrite H1, H2, H3. reflexivity. Qed.
 
   Notation answerC := (answer hstate compute true ims_on parse_ims sanitize_ok prime negotiate vary_tuple
-                              vary_header checked error_page pkg alt sanitize encode hversion).
-  Notation wireX := (stream_wire checked error_page pkg alt sanitize encode hversion).
+                              vary_header checked error_page vary_rules pkg alt sanitize encode hversion).
+  Notation wireX := (stream_wire checked error_page vary_rules pkg alt sanitize encode hversion).
 
   Lemma streams_wire c hs now dt sched hs' now' :
     InvX c -> Forall (fun e => no_imsX (snd e)) reqs ->
@@ -836,15 +853,48 @@ Section ConnLoopProofs.
     destruct (ans H2 secure s now q) as [s' w]. cbn [map]. rewrite IH. reflexivity.
   Qed.
 
-  (** HTTP/1 (repaired): the same, as long as no answer makes the connection's task panic *)
-  Lemma conn_loop_h1 secure s now dt qs :
-    Forall declaredX qs -> Forall (fun w => exists r, w = Ok r /\ r <> WBroken) (seqX H1 secure s now dt qs) ->
+  (** HTTP/1 (repaired): the same, as long as no answer makes the connection's task panic and only the LAST answer may
+      end the connection (a streamed body of unknown length, repair 7334433) *)
+  Fixpoint close_only_last (ws : list (outcome wreply)) : Prop :=
+    match ws with
+    | [] => True
+    | w :: rest => match rest with [] => True | _ => forall x, w <> Ok (WClosed x) end /\ close_only_last rest
+    end.
+
+  Lemma conn_loop_h1_last secure s now dt qs :
+    Forall declaredX qs ->
+    Forall (fun w => exists r, w = Ok r /\ r <> WBroken) (seqX H1 secure s now dt qs) ->
+    close_only_last (seqX H1 secure s now dt qs) ->
     loopX H1 true secure s COpen now dt qs = map Some (seqX H1 secure s now dt qs).
   Proof.
-    revert s now. induction qs as [|q qs IH]; intros s now Hd Hok; cbn [conn_loop serve_seq map] in *; [reflexivity|].
+    revert s now. induction qs as [|q qs IH]; intros s now Hd Hok Hcl; cbn [conn_loop serve_seq map] in *; [reflexivity|].
     destruct (ans H1 secure s now q) as [s' w]. cbn [map].
     inversion Hd as [|? ? Hq Hd']; subst. inversion Hok as [|? ? [r [Hw Hnb]] Hok']; subst.
-    destruct r; [| | contradiction]; rewrite (h1_after_drain s q Hq), (IH s' (now + dt) Hd' Hok'); reflexivity.
+    cbn [close_only_last] in Hcl. destruct Hcl as [Hc Hcl'].
+    destruct qs as [|q' qs'].
+    { cbn [conn_loop serve_seq map]. reflexivity. }
+    assert (Hnc : forall x, r <> WClosed x).
+    { intros x ->. cbn [serve_seq] in Hc. destruct (ans H1 secure s' (now + dt) q') as [s'' w'']. exact (Hc x eq_refl). }
+    destruct r as [x|x| |]; [| exfalso; exact (Hnc x eq_refl) | | contradiction];
+      rewrite (h1_after_drain s q Hq), (IH s' (now + dt) Hd' Hok' Hcl'); reflexivity.
+  Qed.
+
+  Lemma close_only_last_none ws : Forall (fun w => forall x, w <> Ok (WClosed x)) ws -> close_only_last ws.
+  Proof.
+    induction ws as [|w ws IH]; intros F; cbn [close_only_last]; [exact I|].
+    inversion F as [|? ? Hw F']; subst. split; [destruct ws; [exact I | exact Hw] | exact (IH F')].
+  Qed.
+
+  Lemma conn_loop_h1 secure s now dt qs :
+    Forall declaredX qs ->
+    Forall (fun w => exists r, w = Ok r /\ r <> WBroken /\ (forall x, r <> WClosed x)) (seqX H1 secure s now dt qs) ->
+    loopX H1 true secure s COpen now dt qs = map Some (seqX H1 secure s now dt qs).
+  Proof.
+    intros Hd Hok. apply conn_loop_h1_last; [exact Hd | |].
+    - apply Forall_forall. intros w Hw. destruct (proj1 (Forall_forall _ _) Hok w Hw) as (r & E & B & _).
+      exists r. split; assumption.
+    - apply close_only_last_none. apply Forall_forall. intros w Hw x ->.
+      destruct (proj1 (Forall_forall _ _) Hok _ Hw) as (r & E & _ & C). inversion E. subst r. exact (C x eq_refl).
   Qed.
 
   (** parity of the specification's view, from parity of one step *)
@@ -874,10 +924,10 @@ Proof.
 Qed.
 
 (** [send] answers or panics (in [apply_range]); it has no error value *)
-Lemma send_ok_or_panic checked error_page pkg p secure alt m sd r :
-  send checked error_page pkg p secure alt m sd r = Panic \/ exists w, send checked error_page pkg p secure alt m sd r = Ok w.
+Lemma send_ok_or_panic checked error_page vn pkg p secure alt m sd r :
+  send checked error_page vn pkg p secure alt m sd r = Panic \/ exists w, send checked error_page vn pkg p secure alt m sd r = Ok w.
 Proof.
-  unfold send. destruct (apply_sd checked error_page sd (add_alt_svc secure alt r)) as [a|e|] eqn:E; cbn [obind].
+  unfold send. destruct (apply_sd checked error_page vn sd (head_only (add_alt_svc secure alt r))) as [a|e|] eqn:E; cbn [obind].
   - right. destruct p; [eexists; reflexivity|]. destruct (h2_refuses _); eexists; reflexivity.
   - exfalso. unfold apply_sd in E. destruct sd as [rg|e'|]; try discriminate.
     destruct (rs_status _ =? 304); [discriminate|].
@@ -899,24 +949,35 @@ Lemma add_alt_svc_body secure alt r : rs_body (add_alt_svc secure alt r) = rs_bo
 Proof. unfold add_alt_svc. destruct alt; [destruct secure|]; reflexivity. Qed.
 Lemma add_alt_svc_status secure alt r : rs_status (add_alt_svc secure alt r) = rs_status r.
 Proof. unfold add_alt_svc. destruct alt; [destruct secure|]; reflexivity. Qed.
+Lemma head_only_status r : rs_status (head_only r) = rs_status r.
+Proof. unfold head_only. destruct (ends_with_head (rs_status r)); reflexivity. Qed.
+Lemma head_only_headers r : rs_headers (head_only r) = rs_headers r.
+Proof. unfold head_only. destruct (ends_with_head (rs_status r)); reflexivity. Qed.
+Lemma head_only_version r : rs_version (head_only r) = rs_version r.
+Proof. unfold head_only. destruct (ends_with_head (rs_status r)); reflexivity. Qed.
+Lemma head_only_body_len r : N.of_nat (length (rs_body (head_only r))) <= N.of_nat (length (rs_body r)).
+Proof. unfold head_only. destruct (ends_with_head (rs_status r)); cbn [rs_body length]; lia. Qed.
 
-Lemma send_no_panic checked error_page pkg p secure alt m path_ok hdr r :
+Lemma send_no_panic checked error_page vn pkg p secure alt m path_ok hdr r :
   N.of_nat (length (rs_body r)) <= u64_max ->
-  send checked error_page pkg p secure alt m (sd_of path_ok hdr) r <> Panic.
+  send checked error_page vn pkg p secure alt m (sd_of path_ok hdr) r <> Panic.
 Proof.
   intros Hlen HP.
-  destruct (send_ok_or_panic checked error_page pkg p secure alt m (sd_of path_ok hdr) r) as [_|[w Hw]];
+  destruct (send_ok_or_panic checked error_page vn pkg p secure alt m (sd_of path_ok hdr) r) as [_|[w Hw]];
     [|rewrite Hw in HP; discriminate].
   unfold send in HP.
-  destruct (apply_sd checked error_page (sd_of path_ok hdr) (add_alt_svc secure alt r)) as [a|e|] eqn:E; cbn [obind] in HP.
+  destruct (apply_sd checked error_page vn (sd_of path_ok hdr) (head_only (add_alt_svc secure alt r))) as [a|e|] eqn:E; cbn [obind] in HP.
   - destruct p; [discriminate|]. destruct (h2_refuses _); discriminate.
   - discriminate.
-  - clear HP. unfold apply_sd, sd_of in E. rewrite add_alt_svc_body, add_alt_svc_status in E.
-    pose proof (serve_range_no_panic checked hdr (rs_body r) Hlen) as NP. unfold serve_range in NP.
+  - clear HP. unfold apply_sd, sd_of in E. rewrite head_only_status, add_alt_svc_status in E.
+    set (r' := head_only (add_alt_svc secure alt r)) in *.
+    assert (Hlen' : N.of_nat (length (rs_body r')) <= u64_max).
+    { unfold r'. pose proof (head_only_body_len (add_alt_svc secure alt r)) as L. rewrite add_alt_svc_body in L. lia. }
+    pose proof (serve_range_no_panic checked hdr (rs_body r') Hlen') as NP. unfold serve_range in NP.
     destruct path_ok; [|discriminate].
     destruct (sanitize_range hdr) as [rg|e|]; try discriminate; [|exact (NP eq_refl)].
     destruct (rs_status r =? 304); [discriminate|].
-    destruct (apply_range checked rg (rs_status r) (rs_body r)) eqn:A; try discriminate.
+    destruct (apply_range checked rg (rs_status r) (rs_body r')) eqn:A; try discriminate.
     apply apply_range_panic_status in A. rewrite A in NP. exact (NP eq_refl).
 Qed.
 
@@ -933,6 +994,7 @@ Section HistoryParity.
   Variable vary_header : request -> fat -> list (bytes * bytes).
   Variable checked : bool.
   Variable error_page : N -> resp.
+  Variable vary_rules : request -> list bytes.
   Variable pkg : N -> headers -> headers.
   Variable alt : option bytes.
   Variable sanitize : request -> outcome (option (N * N)).
@@ -942,13 +1004,13 @@ Section HistoryParity.
   Hypothesis Hpkg : pkg_oblivious pkg.
 
   Notation histX := (conn_hist hstate compute cache_on ims_on parse_ims sanitize_ok prime negotiate vary_tuple
-                               vary_header checked error_page pkg alt sanitize encode hversion wants).
+                               vary_header checked error_page vary_rules pkg alt sanitize encode hversion wants).
   Notation answersX := (answers hstate compute cache_on ims_on parse_ims sanitize_ok prime negotiate vary_tuple
-                                vary_header checked error_page pkg alt sanitize encode hversion).
+                                vary_header checked error_page vary_rules pkg alt sanitize encode hversion).
   Notation stepX := (ans_step hstate compute cache_on ims_on parse_ims sanitize_ok prime negotiate vary_tuple
-                              vary_header checked error_page pkg alt sanitize encode hversion).
+                              vary_header checked error_page vary_rules pkg alt sanitize encode hversion).
   Notation answerX := (answer hstate compute cache_on ims_on parse_ims sanitize_ok prime negotiate vary_tuple
-                              vary_header checked error_page pkg alt sanitize encode hversion).
+                              vary_header checked error_page vary_rules pkg alt sanitize encode hversion).
 
   Lemma ans_step_answer p secure st now b : snd (stepX p secure st now b) = answerX p secure st now (b_req b).
   Proof.
@@ -972,14 +1034,15 @@ Section HistoryParity.
     - intros. rewrite !ans_step_answer. apply answer_parity. exact Hpkg.
   Qed.
 
-  Lemma answers_not_broken p secure st now dt bs : Forall (fun w => w <> Ok WBroken) (answersX p secure st now dt bs).
+  Lemma answers_not_broken p secure st now dt bs :
+    Forall (fun w => w <> Ok WBroken /\ forall x, w <> Ok (WClosed x)) (answersX p secure st now dt bs).
   Proof.
     unfold answers. revert st now. induction bs as [|b bs IH]; intros st now; cbn [serve_seq]; [constructor|].
     pose proof (ans_step_answer p secure st now b) as Ha.
     destruct (stepX p secure st now b) as [s' w]. cbn [snd] in Ha. constructor; [|apply IH].
     rewrite Ha. unfold answer.
     destruct (serve hstate compute cache_on ims_on parse_ims sanitize_ok prime negotiate vary_tuple vary_header st now (b_req b))
-      as [[st' rp] lg]. apply send_not_broken.
+      as [[st' rp] lg]. split; [apply send_not_broken | apply send_not_closed].
   Qed.
 
   Definition declared_b (b : breq) : Prop := pr_no_request_body (rq_method (b_req b)) = true -> b_len b = 0.
@@ -998,7 +1061,8 @@ Section HistoryParity.
     cut (Forall (fun w : outcome wreply => exists r, w = Ok r) (answersX H1 secure1 st now dt bs)).
     { intros Hok. apply Forall_forall. intros w Hw.
       destruct (proj1 (Forall_forall _ _) Hok w Hw) as [r Hr]. exists r. split; [exact Hr|].
-      intros ->. subst w. exact (proj1 (Forall_forall _ _) Hnb _ Hw eq_refl). }
+      destruct (proj1 (Forall_forall _ _) Hnb _ Hw) as [B C]. subst w.
+      split; [intros ->; exact (B eq_refl) | intros x ->; exact (C x eq_refl)]. }
     unfold answers. apply (map_onorm_ok _ _ Hpar).
     assert (G : forall s n l, Forall (fun w => w <> Panic) (serve_seq (state hstate) breq stepX H2 true s n dt l) ->
                               Forall (fun w : outcome wreply => exists r, w = Ok r) (serve_seq (state hstate) breq stepX H2 true s n dt l)).
@@ -1009,7 +1073,7 @@ Section HistoryParity.
       unfold answer in Hw |- *.
       destruct (serve hstate compute cache_on ims_on parse_ims sanitize_ok prime negotiate vary_tuple vary_header s n (b_req b))
         as [[st' rp] lg].
-      destruct (send_ok_or_panic checked error_page pkg H2 true alt (rq_method (b_req b)) (sanitize (b_req b))
+      destruct (send_ok_or_panic checked error_page (vary_rules (b_req b)) pkg H2 true alt (rq_method (b_req b)) (sanitize (b_req b))
                                  (l4_resp encode hversion (b_req b) rp)) as [P|E]; [contradiction | exact E]. }
     apply G. exact Hnp.
   Qed.
@@ -1034,9 +1098,10 @@ Proof.
   apply beq_eq in E'. subst. rewrite beq_refl in E. discriminate.
 Qed.
 
-Lemma assoc_CL_h1_connection h : assoc H_CL (h1_connection h) = assoc H_CL h.
+Lemma assoc_CL_h1_connection st h : assoc H_CL (h1_connection st h) = assoc H_CL h.
 Proof.
-  unfold h1_connection. destruct (assoc H_CONN h) as [v|].
+  unfold h1_connection. destruct (h1_close_delimited st h); [apply assoc_insert_other; reflexivity|].
+  destruct (assoc H_CONN h) as [v|].
   - destruct (to_str_ok v && negb (beq v V_CLOSE)); [reflexivity | apply assoc_insert_other; reflexivity].
   - apply assoc_insert_other; reflexivity.
 Qed.
@@ -1056,8 +1121,20 @@ Proof.
   cbn [rs_headers]. unfold hm_append. rewrite assoc_app. destruct (assoc H_CL (rs_headers r)); reflexivity.
 Qed.
 
+Lemma assoc_TENC_alt secure alt r : assoc H_TENC (rs_headers (add_alt_svc secure alt r)) = assoc H_TENC (rs_headers r).
+Proof.
+  unfold add_alt_svc. destruct alt as [v|]; [|reflexivity]. destruct secure; [|reflexivity].
+  cbn [rs_headers]. unfold hm_append. rewrite assoc_app. destruct (assoc H_TENC (rs_headers r)); reflexivity.
+Qed.
+
+Lemma close_delimited_alt secure alt r f : close_delimited (add_alt_svc secure alt r) f = close_delimited r f.
+Proof.
+  unfold close_delimited, hm_has. destruct f as [[cs [n|]]|]; try reflexivity.
+  rewrite assoc_CL_alt, assoc_TENC_alt. reflexivity.
+Qed.
+
 Lemma assoc_CL_ensure_H1 n h : assoc H_CL (ensure_length H1 n h) = Some (dec n).
-Proof. apply assoc_insert_same. Qed.
+Proof. cbn [ensure_length]. rewrite assoc_remove. cbn. apply assoc_insert_same. Qed.
 Lemma assoc_CL_ensure_H2 n h :
   assoc H_CL (ensure_length H2 n h) = match assoc H_CL h with Some _ => Some (dec n) | None => None end.
 Proof.
@@ -1102,13 +1179,14 @@ Qed.
 Section Pipe.
   Variable checked : bool.
   Variable error_page : N -> resp.
+  Variable vn : list bytes.
   Variable pkg : N -> headers -> headers.
 
   (** what [pipe_send] (with [head_eos = false], kvarn's value) delivers: the head, then body and chunks in that
       order, and the stream ended *)
   Lemma pipe_send_H1 v st h body cs :
     pipe_send H1 false v st h body cs
-    = mkArr (Some (v, st, h1_connection h)) ((match body with Some b => b | None => [] end) ++ concat cs) false.
+    = mkArr (Some (v, st, h1_connection st h)) ((match body with Some b => b | None => [] end) ++ concat cs) false.
   Proof.
     unfold pipe_send, pipe_head.
     assert (D : forall a b, pipe_data H1 a b false = Some (mkArr (a_head a) (a_bytes a ++ b) (a_ended a))).
@@ -1132,8 +1210,8 @@ Section Pipe.
       cbn [negb andb a_head a_bytes a_ended]; rewrite app_nil_r; reflexivity.
   Qed.
 
-  Notation sendX := (send checked error_page pkg).
-  Notation pipeX := (send_pipe checked error_page pkg).
+  Notation sendX := (send checked error_page vn pkg).
+  Notation pipeX := (send_pipe checked error_page vn pkg).
 
   (** the body a non-streaming [send] puts on the pipe is the body [send] reports *)
   Lemma body_opt_bytes m (b : bytes) :
@@ -1155,7 +1233,7 @@ Section Pipe.
     pipeX hf p secure alt m sd r None = sendX p secure alt m sd r.
   Proof.
     intros Hk. unfold send_pipe, send.
-    destruct (apply_sd checked error_page sd (add_alt_svc secure alt r)) as [a|e|]; cbn [obind]; try reflexivity.
+    destruct (apply_sd checked error_page vn sd (head_only (add_alt_svc secure alt r))) as [a|e|]; cbn [obind]; try reflexivity.
     set (len := N.of_nat (length (rs_body a))).
     set (v := ensure_version p (rs_version a)).
     f_equal. destruct p.
@@ -1175,55 +1253,96 @@ Section Pipe.
   Qed.
 
   (** A streamed response (repaired code): on either protocol the client receives ONE well-framed response whose body
-      is what [Response::body] and then the future wrote, in that order — nothing for HEAD —, whenever the announced
-      length is the number of those bytes. *)
-  Lemma send_pipe_stream p secure alt m sd r cs ol : pkg_keeps_length pkg -> fut_framed r (Some (cs, ol)) ->
+      is what [Response::body] (emptied for a 1xx / 204 / 304) and then the future wrote, in that order — nothing for
+      HEAD —, whenever the announced length is the number of those bytes, or no length is announced at all: then the
+      HTTP/1 answer ends with the connection ([WClosed]). *)
+  Definition wrap (p : proto) (r : resp) (f : option (list bytes * option N)) : resp -> wreply :=
+    if match p with H1 => close_delimited r f | H2 => false end then WClosed else WResp.
+
+  (** (a HEAD request answered 101: the future — the protocol switch — is run all the same; should it write anything,
+      those bytes follow the head of a HEAD answer) *)
+  Lemma send_pipe_stream p secure alt m sd r cs ol :
+    pkg_keeps_length pkg -> fut_framed (head_only r) (Some (cs, ol)) ->
     exists v h, pipeX false p secure alt m sd r (Some (cs, ol))
-                = Ok (WResp (mkResp v (rs_status r) h (if m =? M_HEAD then [] else rs_body r ++ concat cs)))
+                = (if (m =? M_HEAD) && (rs_status r =? 101) && negb (N.of_nat (length (concat cs)) =? 0) then Ok WBroken else
+                   Ok (wrap p r (Some (cs, ol))
+                        (mkResp v (rs_status r) h (if m =? M_HEAD then [] else rs_body (head_only r) ++ concat cs))))
                 /\ v = ensure_version p (rs_version r)
                 /\ strip h = strip (pkg v (match ol with
                                            | Some n => ensure_length p n (rs_headers (add_alt_svc secure alt r))
                                            | None => rs_headers (add_alt_svc secure alt r) end)).
   Proof.
     intros Hk Hf. unfold send_pipe. cbn [obind orb].
-    set (r0 := add_alt_svc secure alt r).
-    assert (Hb : rs_body r0 = rs_body r) by apply add_alt_svc_body.
-    assert (Hs : rs_status r0 = rs_status r) by apply add_alt_svc_status.
-    assert (Hv : rs_version r0 = rs_version r) by (unfold r0, add_alt_svc; destruct alt; [destruct secure|]; reflexivity).
-    rewrite Hb, Hs, Hv.
+    rewrite close_delimited_alt.
+    set (ra := add_alt_svc secure alt r).
+    set (r0 := head_only ra).
+    assert (Hb : rs_body r0 = rs_body (head_only r)).
+    { unfold r0, ra, head_only. rewrite add_alt_svc_status.
+      destruct (ends_with_head (rs_status r)); [reflexivity | apply add_alt_svc_body]. }
+    assert (Hs : rs_status r0 = rs_status r) by (unfold r0, ra; rewrite head_only_status; apply add_alt_svc_status).
+    assert (Hv : rs_version r0 = rs_version r).
+    { unfold r0, ra. rewrite head_only_version. unfold add_alt_svc; destruct alt; [destruct secure|]; reflexivity. }
+    assert (Hh : rs_headers r0 = rs_headers ra) by apply head_only_headers.
+    rewrite Hb, Hs, Hv, Hh.
+    set (rb := head_only r) in *.
     set (v := ensure_version p (rs_version r)).
-    set (h1 := match ol with Some n => ensure_length p n (rs_headers r0) | None => rs_headers r0 end).
+    set (h1 := match ol with Some n => ensure_length p n (rs_headers ra) | None => rs_headers ra end).
+    assert (HhCL : assoc H_CL (rs_headers ra) = assoc H_CL (rs_headers rb)).
+    { unfold ra, rb. rewrite assoc_CL_alt, head_only_headers. reflexivity. }
+    assert (HhTE : assoc H_TENC (rs_headers rb) = assoc H_TENC (rs_headers r)).
+    { unfold rb. rewrite head_only_headers. reflexivity. }
+    assert (HhCLr : assoc H_CL (rs_headers rb) = assoc H_CL (rs_headers r)).
+    { unfold rb. rewrite head_only_headers. reflexivity. }
     (* the [content-length] the client sees, if any, is the number of bytes written *)
     assert (HCL : forall c, assoc H_CL (pkg v h1) = Some c ->
-                            c = dec (N.of_nat (length (rs_body r ++ concat cs)))).
+                            c = dec (N.of_nat (length (rs_body rb ++ concat cs)))).
     { intros c Hc. rewrite Hk in Hc. unfold h1 in Hc. cbn [fut_framed] in Hf. destruct ol as [n|].
       - subst n. destruct p; [rewrite assoc_CL_ensure_H1 in Hc | rewrite assoc_CL_ensure_H2 in Hc;
-          destruct (assoc H_CL (rs_headers r0)); [|discriminate]]; inversion Hc; reflexivity.
-      - unfold r0 in Hc. rewrite assoc_CL_alt, Hf in Hc. inversion Hc. reflexivity. }
-    assert (HCL1 : p = H1 -> exists c, assoc H_CL (pkg v h1) = Some c).
-    { intros ->. rewrite Hk. unfold h1. cbn [fut_framed] in Hf. destruct ol as [n|].
-      - rewrite assoc_CL_ensure_H1. eexists; reflexivity.
-      - unfold r0. rewrite assoc_CL_alt, Hf. eexists; reflexivity. }
-    exists v. destruct (m =? M_HEAD) eqn:Hm.
+          destruct (assoc H_CL (rs_headers ra)); [|discriminate]]; inversion Hc; reflexivity.
+      - rewrite HhCL in Hc. rewrite Hc in Hf. exact Hf. }
+    (* HTTP/1: there is a [content-length], or the connection ends the body *)
+    assert (HCL1 : p = H1 -> match assoc H_CL (pkg v h1) with
+                             | Some _ => close_delimited r (Some (cs, ol)) = false
+                             | None => close_delimited r (Some (cs, ol)) = true
+                             end).
+    { intros ->. rewrite Hk. unfold h1. cbn [fut_framed close_delimited] in *. destruct ol as [n|].
+      - rewrite assoc_CL_ensure_H1. reflexivity.
+      - rewrite HhCL. unfold hm_has. rewrite <- HhCLr, <- HhTE.
+        destruct (assoc H_CL (rs_headers rb)); [apply andb_false_r|]. rewrite Hf. reflexivity. }
+    exists v. unfold wrap. destruct (m =? M_HEAD) eqn:Hm.
     - (* HEAD: neither the body nor the future is written *)
-      assert (m = M_HEAD) by lia. subst m. rewrite sends_body_head. cbn [negb].
+      assert (m = M_HEAD) by lia. subst m. rewrite sends_body_head. cbn [negb andb orb] in *.
       destruct p.
-      + rewrite pipe_send_H1. exists (h1_connection (pkg v h1)). split; [|split; [reflexivity | apply strip_h1_connection]].
-        unfold receive. cbn [a_head a_bytes a_ended concat app length]. reflexivity.
+      + rewrite pipe_send_H1. exists (h1_connection (rs_status r) (pkg v h1)).
+        split; [|split; [reflexivity | apply strip_h1_connection]].
+        unfold receive. cbn [a_head a_bytes a_ended app].
+        replace (M_HEAD =? M_HEAD) with true by reflexivity.
+        destruct (rs_status r =? 101); cbn [andb concat length].
+        * destruct (N.of_nat (length (concat cs)) =? 0) eqn:L; cbn [negb]; [|reflexivity].
+          apply N_len_zero in L. rewrite L. destruct (close_delimited r (Some (cs, ol))); reflexivity.
+        * replace (N.of_nat 0 =? 0) with true by reflexivity. destruct (close_delimited r (Some (cs, ol))); reflexivity.
       + rewrite pipe_send_H2, h2_strip_accepted. exists (h2_strip (pkg v h1)).
         split; [|split; [reflexivity | apply strip_h2_strip]].
-        unfold receive. cbn [a_head a_bytes a_ended concat app length]. reflexivity.
-    - cbn [negb].
-      assert (Hbytes : (match (if sends_body m (rs_body r) then Some (rs_body r) else None) with Some b => b | None => [] end)
-                       ++ concat cs = rs_body r ++ concat cs).
+        unfold receive. cbn [a_head a_bytes a_ended app].
+        replace (M_HEAD =? M_HEAD) with true by reflexivity.
+        destruct (rs_status r =? 101); cbn [andb concat length].
+        * destruct (N.of_nat (length (concat cs)) =? 0) eqn:L; cbn [negb]; [|reflexivity].
+          apply N_len_zero in L. rewrite L. reflexivity.
+        * reflexivity.
+    - cbn [negb orb andb].
+      assert (Hbytes : (match (if sends_body m (rs_body rb) then Some (rs_body rb) else None) with Some b => b | None => [] end)
+                       ++ concat cs = rs_body rb ++ concat cs).
       { rewrite body_opt_bytes, sends_body_spec, Hm. cbn [negb]. rewrite andb_true_r.
-        destruct (N.of_nat (length (rs_body r)) =? 0) eqn:E; cbn [negb]; [|reflexivity].
+        destruct (N.of_nat (length (rs_body rb)) =? 0) eqn:E; cbn [negb]; [|reflexivity].
         apply N_len_zero in E. rewrite E. reflexivity. }
       destruct p.
-      + rewrite pipe_send_H1, Hbytes. exists (h1_connection (pkg v h1)).
+      + rewrite pipe_send_H1, Hbytes. exists (h1_connection (rs_status r) (pkg v h1)).
         split; [|split; [reflexivity | apply strip_h1_connection]].
         unfold receive. cbn [a_head a_bytes a_ended]. rewrite Hm, assoc_CL_h1_connection.
-        destruct (HCL1 eq_refl) as [c Hc]. rewrite Hc, (HCL c Hc), beq_refl. reflexivity.
+        pose proof (HCL1 eq_refl) as C1.
+        destruct (assoc H_CL (pkg v h1)) as [c|] eqn:Hc.
+        * rewrite (HCL c eq_refl), beq_refl, C1. reflexivity.
+        * rewrite C1. reflexivity.
       + rewrite pipe_send_H2, h2_strip_accepted, Hbytes. exists (h2_strip (pkg v h1)).
         split; [|split; [reflexivity | apply strip_h2_strip]].
         unfold receive. cbn [a_head a_bytes a_ended negb]. rewrite Hm, assoc_CL_h2_strip.
@@ -1237,14 +1356,19 @@ Section Pipe.
   Proof. intros E. destruct ol; [rewrite !strip_ensure_length|]; exact E. Qed.
 
   (** protocol parity of [send_pipe], streamed or not *)
+  Lemma normalise_wrap p r f x : normalise (wrap p r f x) = WResp (mkResp 0 (rs_status x) (strip (rs_headers x)) (rs_body x)).
+  Proof. unfold wrap. destruct (match p with H1 => close_delimited r f | H2 => false end); reflexivity. Qed.
+
   Lemma send_pipe_parity secure1 alt m sd r f :
-    pkg_oblivious pkg -> pkg_keeps_length pkg -> fut_framed r f ->
+    pkg_oblivious pkg -> pkg_keeps_length pkg -> fut_framed (head_only r) f ->
     onorm (pipeX false H1 secure1 alt m sd r f) = onorm (pipeX false H2 true alt m sd r f).
   Proof.
     intros Ho Hk Hf. destruct f as [[cs ol]|].
     - destruct (send_pipe_stream H1 secure1 alt m sd r cs ol Hk Hf) as (v1 & h1 & E1 & _ & S1).
       destruct (send_pipe_stream H2 true alt m sd r cs ol Hk Hf) as (v2 & h2 & E2 & _ & S2).
-      rewrite E1, E2. cbn [onorm normalise rs_status rs_headers rs_body]. rewrite S1, S2.
+      rewrite E1, E2.
+      destruct ((m =? M_HEAD) && (rs_status r =? 101) && negb (N.of_nat (length (concat cs)) =? 0)); [reflexivity|].
+      cbn [onorm]. rewrite !normalise_wrap. cbn [rs_status rs_headers rs_body]. rewrite S1, S2.
       f_equal. f_equal. f_equal. apply Ho. apply strip_ol_cong.
       destruct (add_alt_svc_eqv secure1 true alt r) as (_ & _ & E & _). exact E.
     - rewrite !send_pipe_no_future by exact Hk. apply send_parity. exact Ho.
@@ -1261,7 +1385,7 @@ Section Pipe.
     assert (D : forall q a, a_ended a = false -> pipe_data q a body true = Some (mkArr (a_head a) (a_bytes a ++ body) (match q with H1 => false | H2 => true end))).
     { intros q a Ha. unfold pipe_data. cbn [negb andb]. destruct q; [|rewrite Ha]; rewrite ?Ha; reflexivity. }
     destruct p.
-    - cbn [pipe_head]. rewrite D by reflexivity. exists (h1_connection (ensure_length H1 len (rs_headers r))).
+    - cbn [pipe_head]. rewrite D by reflexivity. exists (h1_connection (rs_status r) (ensure_length H1 len (rs_headers r))).
       split; [|rewrite strip_h1_connection; apply strip_ensure_length].
       unfold receive. cbn [a_head a_bytes a_ended app]. unfold body. destruct (m =? M_HEAD) eqn:Hm; [reflexivity|].
       rewrite assoc_CL_h1_connection, assoc_CL_ensure_H1. fold len. rewrite beq_refl. reflexivity.
@@ -1284,10 +1408,10 @@ End Pipe.
     — stray bytes on the HTTP/1 connection, DATA the h2 client refuses on the HTTP/2 stream *)
 Lemma head_stream_v0_refuted_lemma : exists r cs n,
   fut_framed r (Some (cs, Some n)) /\
-  send_pipe false (fun _ => r) (fun _ h => h) true H1 true None M_HEAD (Ok None) r (Some (cs, Some n)) = Ok WBroken /\
-  send_pipe false (fun _ => r) (fun _ h => h) true H2 true None M_HEAD (Ok None) r (Some (cs, Some n)) = Ok WBroken /\
-  (exists w1 w2, send_pipe false (fun _ => r) (fun _ h => h) false H1 true None M_HEAD (Ok None) r (Some (cs, Some n)) = Ok (WResp w1) /\
-                 send_pipe false (fun _ => r) (fun _ h => h) false H2 true None M_HEAD (Ok None) r (Some (cs, Some n)) = Ok (WResp w2) /\
+  send_pipe false (fun _ => r) [] (fun _ h => h) true H1 true None M_HEAD (Ok None) r (Some (cs, Some n)) = Ok WBroken /\
+  send_pipe false (fun _ => r) [] (fun _ h => h) true H2 true None M_HEAD (Ok None) r (Some (cs, Some n)) = Ok WBroken /\
+  (exists w1 w2, send_pipe false (fun _ => r) [] (fun _ h => h) false H1 true None M_HEAD (Ok None) r (Some (cs, Some n)) = Ok (WResp w1) /\
+                 send_pipe false (fun _ => r) [] (fun _ h => h) false H2 true None M_HEAD (Ok None) r (Some (cs, Some n)) = Ok (WResp w2) /\
                  rs_body w1 = [] /\ rs_body w2 = []).
 Proof.
   exists (mkResp V11 200 [(B "content-type", B "text/plain")] []), [B "first "; B "second"], 12.
@@ -1300,10 +1424,10 @@ Qed.
     body — every write of the future fails on the ended stream — while the HTTP/1.1 client gets the streamed bytes *)
 Lemma head_end_of_stream_refuted_lemma : exists v st h cs,
   concat cs <> [] /\
-  receive H1 M_GET (pipe_send H1 true v st (ensure_length H1 (N.of_nat (length (concat cs))) h) None cs)
-    = WResp (mkResp v st (h1_connection (ensure_length H1 (N.of_nat (length (concat cs))) h)) (concat cs)) /\
-  receive H2 M_GET (pipe_send H2 true v st h None cs) = WResp (mkResp v st (h2_strip h) []) /\
-  receive H2 M_GET (pipe_send H2 false v st h None cs) = WResp (mkResp v st (h2_strip h) (concat cs)).
+  receive H1 M_GET false (pipe_send H1 true v st (ensure_length H1 (N.of_nat (length (concat cs))) h) None cs)
+    = WResp (mkResp v st (h1_connection st (ensure_length H1 (N.of_nat (length (concat cs))) h)) (concat cs)) /\
+  receive H2 M_GET false (pipe_send H2 true v st h None cs) = WResp (mkResp v st (h2_strip h) []) /\
+  receive H2 M_GET false (pipe_send H2 false v st h None cs) = WResp (mkResp v st (h2_strip h) (concat cs)).
 Proof.
   exists V11, 200, [(B "content-type", B "text/plain")], [B "first "; B "second"].
   split; [discriminate|]. split; [vm_compute; reflexivity|]. split; vm_compute; reflexivity.
@@ -1319,12 +1443,16 @@ Proof.
   - rewrite Nat.min_r by exact H. reflexivity.
 Qed.
 
-Lemma h1_read_first early conn max_len :
-  fst (h1_read_to_bytes (mkH1B early conn (N.of_nat (length (early ++ conn)))) max_len)
-  = firstn (N.to_nat max_len) (early ++ conn).
+(** [Http1Body] with [offset] bytes already handed out (through [AsyncRead]; repairs 9c56fae / 2820a60): what is left of
+    the body is the early bytes from [offset] on, then what the client still sends; [read_to_bytes] continues there *)
+Lemma h1_read_rest early conn cl off max_len :
+  cl - off = N.of_nat (length (skipn (N.to_nat off) early ++ conn)) ->
+  fst (h1_read_to_bytes (mkH1B early conn cl off) max_len)
+  = firstn (N.to_nat max_len) (skipn (N.to_nat off) early ++ conn).
 Proof.
-  unfold h1_read_to_bytes. cbn [hb_cl hb_early hb_conn].
-  set (body := early ++ conn).
+  intros Hcl. unfold h1_read_to_bytes. cbn [hb_cl hb_early hb_conn hb_off]. rewrite Hcl.
+  set (early' := skipn (N.to_nat off) early).
+  set (body := early' ++ conn).
   destruct (N.min (N.of_nat (length body)) max_len =? 0) eqn:E; cbn [fst].
   - assert (H : length body = 0%nat \/ max_len = 0) by lia. destruct H as [H|H].
     + destruct body; [|discriminate H]. rewrite firstn_nil. reflexivity.
@@ -1332,9 +1460,14 @@ Proof.
   - replace (N.to_nat (N.min (N.of_nat (length body)) max_len)) with (Nat.min (length body) (N.to_nat max_len)) by lia.
     set (len := Nat.min (length body) (N.to_nat max_len)).
     rewrite <- (firstn_min_all (N.to_nat max_len) body). fold len. unfold body.
-    rewrite (firstn_app len early conn). f_equal. f_equal.
+    rewrite (firstn_app len early' conn). f_equal. f_equal.
     rewrite firstn_length. lia.
 Qed.
+
+Lemma h1_read_first early conn max_len :
+  fst (h1_read_to_bytes (mkH1B early conn (N.of_nat (length (early ++ conn))) 0) max_len)
+  = firstn (N.to_nat max_len) (early ++ conn).
+Proof. apply (h1_read_rest early conn (N.of_nat (length (early ++ conn))) 0 max_len). change (N.to_nat 0) with 0%nat. cbn [skipn]. lia. Qed.
 
 Lemma h2_read_loop_spec max_len frames : forall acc,
   N.of_nat (length acc) <= max_len ->
@@ -1366,7 +1499,7 @@ Qed.
     both protocols. *)
 Lemma read_to_bytes_parity_lemma body early conn frames max_len :
   early ++ conn = body -> concat frames = body ->
-  fst (h1_read_to_bytes (mkH1B early conn (N.of_nat (length body))) max_len) = firstn (N.to_nat max_len) body /\
+  fst (h1_read_to_bytes (mkH1B early conn (N.of_nat (length body)) 0) max_len) = firstn (N.to_nat max_len) body /\
   fst (h2_read_to_bytes frames max_len) = firstn (N.to_nat max_len) body.
 Proof.
   intros He Hf. split.
@@ -1378,7 +1511,7 @@ Qed.
     DATA frames after the one in which the limit was reached on HTTP/2 *)
 Lemma second_read_refuted_lemma : exists body early conn frames l1 l2,
   early ++ conn = body /\ concat frames = body /\
-  h1_reads (mkH1B early conn (N.of_nat (length body))) [l1; l2] <> h2_reads frames [l1; l2].
+  h1_reads (mkH1B early conn (N.of_nat (length body)) 0) [l1; l2] <> h2_reads frames [l1; l2].
 Proof.
   exists [1; 2; 3; 4; 5; 6], [1; 2; 3; 4; 5; 6], [], [[1; 2; 3]; [4; 5; 6]], 2, 10.
   split; [reflexivity|]. split; [reflexivity|]. vm_compute. discriminate.
@@ -1400,7 +1533,105 @@ Lemma stream_plan_v0_refuted_lemma : exists file a c, a < c /\
   match stream_plan false file (Some (a, c)) with Some (b, n) => n <> N.of_nat (length b) | None => False end.
 Proof. exists [1; 2; 3], 1, 10. split; [lia|]. vm_compute. discriminate. Qed.
 
-(** ---- the executable history of the correspondence ([pair_hist], components proto.pair / proto.answered) ---- *)
+(** ... and (repaired) it answers a Range exactly as [apply_to_response] answers it for a body in memory (Model/Range.v
+    [apply_range], C09): 416 when the start is at or after the end of the file, else 206, the same [content-range], the
+    same bytes *)
+Lemma stream_body_as_in_memory_lemma checked file a c : a < c ->
+  match apply_range checked (Some (a, c)) 200 file with
+  | Ok g => stream_plan true file (Some (a, c)) = Some (r_body g, N.of_nat (length (r_body g))) /\
+            stream_head true file (Some (a, c)) = Some (r_status g, r_content_range g)
+  | Err _ => stream_plan true file (Some (a, c)) = None /\ stream_head true file (Some (a, c)) = None
+  | Panic => False
+  end.
+Proof.
+  intros Hac. unfold apply_range, stream_plan, stream_head. cbn [andb].
+  set (len := N.of_nat (length file)).
+  destruct (len <=? a) eqn:Ea; [split; reflexivity|].
+  assert (Hre : (if len <=? c then len else c) = N.min c len) by (destruct (len <=? c) eqn:Ec; lia).
+  rewrite Hre. set (re := N.min c len).
+  unfold sub_u64. replace (1 <=? re) with true by (unfold re; lia). cbn [obind].
+  unfold slice_chk, slice_get.
+  replace (Nat.leb (N.to_nat a) (N.to_nat re) && Nat.leb (N.to_nat re) (length file))%bool with true.
+  2:{ symmetry. apply andb_true_iff. split; apply Nat.leb_le; unfold re, len in *; lia. }
+  cbn [obind r_body r_status r_content_range]. unfold slice.
+  replace (N.to_nat re - N.to_nat a)%nat with (N.to_nat (re - a)) by lia.
+  split; [|reflexivity]. f_equal. f_equal.
+  rewrite firstn_length, skipn_length. unfold re, len in *. lia.
+Qed.
+
+(** the code before the repair answered 200 without [content-range] *)
+Lemma stream_head_v0_lemma file a c : stream_head false file (Some (a, c)) = Some (200, None).
+Proof. reflexivity. Qed.
+
+(** ---- the other repairs of [SendKind::send] made for other properties, as they show on both protocols ---- *)
+(** 21f0154: a Range that starts at or after the end of the body is answered with the host's 416 page carrying the [vary]
+    header of the request's rules (when that page has a body) *)
+Lemma range_not_satisfiable_page_lemma checked error_page vn a c r :
+  (rs_status r =? 304) = false -> N.of_nat (length (rs_body r)) <= a ->
+  apply_sd checked error_page vn (Ok (Some (a, c))) r = Ok (vary_from_settings vn (error_page 416)) /\
+  (rs_body (error_page 416) <> [] ->
+   assoc H_VARY (rs_headers (vary_from_settings vn (error_page 416))) = Some (vary_value vn) /\
+   rs_body (vary_from_settings vn (error_page 416)) = rs_body (error_page 416)).
+Proof.
+  intros H304 Hlen. split.
+  - unfold apply_sd. rewrite H304. unfold apply_range.
+    replace (N.of_nat (length (rs_body r)) <=? a) with true by lia. reflexivity.
+  - intros Hb. unfold vary_from_settings.
+    destruct (N.of_nat (length (rs_body (error_page 416))) =? 0) eqn:E.
+    + apply N_len_zero in E. contradiction.
+    + cbn [rs_headers rs_body]. split; [apply assoc_insert_same | reflexivity].
+Qed.
+
+(** 89e2956: a 1xx / 204 / 304 answer to a request without a Range header has no body on either protocol, whatever an
+    extension left on the response *)
+Lemma bodiless_status_lemma checked error_page vn pkg p secure alt m path_ok r w :
+  ends_with_head (rs_status r) = true ->
+  send checked error_page vn pkg p secure alt m (sd_of path_ok None) r = Ok (WResp w) ->
+  rs_body w = [] /\ rs_status w = rs_status r.
+Proof.
+  intros Hs. unfold send, sd_of, sanitize_range.
+  set (ra := add_alt_svc secure alt r).
+  assert (H0 : head_only ra = mkResp (rs_version ra) (rs_status r) (rs_headers ra) []).
+  { unfold head_only, ra. rewrite add_alt_svc_status, Hs. reflexivity. }
+  rewrite H0.
+  assert (E : exists h, (if path_ok then apply_sd checked error_page vn (Ok None) (mkResp (rs_version ra) (rs_status r) (rs_headers ra) [])
+                         else apply_sd checked error_page vn (Err 400) (mkResp (rs_version ra) (rs_status r) (rs_headers ra) []))
+                        = Ok (mkResp (rs_version ra) (rs_status r) h [])).
+  { destruct path_ok; unfold apply_sd; cbn [rs_status rs_body rs_headers rs_version].
+    - destruct (rs_status r =? 304); [eexists; reflexivity|]. unfold apply_range. cbn [length].
+      cbn [r_accept_ranges r_content_range r_status r_body]. eexists; reflexivity.
+    - eexists; reflexivity. }
+  destruct E as [h E].
+  replace (apply_sd checked error_page vn (if path_ok then Ok None else Err 400)
+                    {| rs_version := rs_version ra; rs_status := rs_status r; rs_headers := rs_headers ra; rs_body := [] |})
+    with (Ok (mkResp (rs_version ra) (rs_status r) h [])) by (destruct path_ok; symmetry; exact E).
+  cbn [obind rs_body rs_status rs_headers rs_version].
+  assert (Sb : sends_body m [] = false) by reflexivity. rewrite Sb.
+  destruct p.
+  - intros H. inversion H. split; reflexivity.
+  - destruct (h2_refuses _); intros H; inversion H. split; reflexivity.
+Qed.
+
+(** 7334433: after an answer that ends the HTTP/1 connection nothing more is answered on it — while the HTTP/2 connection
+    goes on: the hypothesis "only the last" of [pair_hist_answered] is needed.  Each answer is the same on both. *)
+Definition unk_page : resp := mkResp V11 200 [(B "content-type", B "text/plain")] [].
+Lemma close_delimited_not_last_refuted_lemma : exists checked ops alt e416 exs,
+  Forall ex_ok exs /\
+  map is_resp (pair_hist checked ops alt e416 H1 true true exs) = [true; false] /\
+  map is_resp (pair_hist checked ops alt e416 H2 true true exs) = [true; true] /\
+  map (send_ex checked ops alt e416 H1 true) exs
+    = [Ok (WClosed (mkResp V11 200 [(B "content-type", B "text/plain"); (B "connection", B "close")] (B "first second")));
+       Ok (WResp (mkResp V11 200 [(B "content-type", B "text/plain"); (B "content-length", B "0"); (B "connection", B "keep-alive")] []))] /\
+  map (option_map onorm) (map (fun e => Some (send_ex checked ops alt e416 H1 true e)) exs)
+    = map (option_map onorm) (pair_hist checked ops alt e416 H2 true true exs).
+Proof.
+  exists false, [], None, unk_page,
+    [mkEx M_GET None true unk_page 0 None false (Some ([B "first "; B "second"], None)) [];
+     mkEx M_GET None true unk_page 0 None false None []].
+  split; [|vm_compute; repeat split].
+  repeat constructor; cbn; try lia; try discriminate; try (intros H; exfalso; apply H; reflexivity).
+Qed.
+
 (** the package menu leaves [content-length] alone whenever none of its extensions names a connection-level header *)
 Lemma run_pkg_op_keeps_CL o h : hop (pkg_op_name o) = false -> assoc H_CL (run_pkg_op o h) = assoc H_CL h.
 Proof.
@@ -1432,10 +1663,6 @@ Section PairHist.
   Variable e416 : resp.
   Hypothesis Hops : Forall (fun o => hop (pkg_op_name o) = false) ops.
 
-  Definition ex_in_domain (e : exch) : Prop :=
-    (pr_no_request_body (ex_method e) = true -> ex_blen e = 0) /\ N.of_nat (length (rs_body (ex_l4 e))) <= u64_max /\
-    fut_framed (ex_l4 e) (ex_fut e).
-
   Lemma ex_seq p secure exs :
     serve_seq unit exch (ex_ans checked ops alt e416) p secure tt 0 1 exs = map (send_ex checked ops alt e416 p secure) exs.
   Proof.
@@ -1443,57 +1670,86 @@ Section PairHist.
     rewrite IH. reflexivity.
   Qed.
 
-  Lemma send_ex_resp p secure e : ex_in_domain e -> exists r, send_ex checked ops alt e416 p secure e = Ok (WResp r).
+  (** every exchange of the domain is answered with a response — one that ends the HTTP/1 connection exactly when
+      [ex_closes] says so *)
+  Lemma send_ex_resp p secure e : ex_ok e ->
+    exists r, send_ex checked ops alt e416 p secure e
+              = Ok ((if match p with H1 => ex_closes e | H2 => false end then WClosed else WResp) r).
   Proof.
-    intros (_ & Hlen & Hf). unfold send_ex.
-    destruct (ex_limited e).
-    { destruct (send_direct_resp p (ex_method e) (ex_l4 e)) as (h & E & _). rewrite E. eexists; reflexivity. }
+    intros (_ & Hlen & Hf & H101). unfold send_ex, ex_closes.
+    destruct (ex_limited e); cbn [negb andb].
+    { destruct (send_direct_resp p (ex_method e) (ex_l4 e)) as (h & E & _). rewrite E. destruct p; eexists; reflexivity. }
     pose proof (pkg_menu_keeps_length ops Hops) as Hk.
     destruct (ex_fut e) as [[cs ol]|].
-    { destruct (send_pipe_stream checked (fun _ => e416) (pkg_menu ops) p secure alt (ex_method e)
-                  (sd_of (ex_path_ok e) (ex_range e)) (ex_l4 e) cs ol Hk Hf) as (v & h & E & _). rewrite E. eexists; reflexivity. }
-    rewrite send_pipe_no_future by exact Hk.
-    destruct (send_ok_or_panic checked (fun _ => e416) (pkg_menu ops) p secure alt (ex_method e)
+    { destruct (send_pipe_stream checked (fun _ => e416) (ex_vary e) (pkg_menu ops) p secure alt (ex_method e)
+                  (sd_of (ex_path_ok e) (ex_range e)) (ex_l4 e) cs ol Hk Hf) as (v & h & E & _). rewrite E.
+      rewrite (H101 ltac:(discriminate)). cbn [andb]. unfold wrap. eexists; reflexivity. }
+    rewrite send_pipe_no_future by exact Hk. cbn [close_delimited].
+    destruct (send_ok_or_panic checked (fun _ => e416) (ex_vary e) (pkg_menu ops) p secure alt (ex_method e)
                                (sd_of (ex_path_ok e) (ex_range e)) (ex_l4 e)) as [P|[w Hw]].
-    - exfalso. exact (send_no_panic _ _ _ _ _ _ _ _ _ _ Hlen P).
-    - destruct w as [r| |]; [exists r; exact Hw| |].
-      + exfalso. exact (send_never_refused _ _ _ _ _ _ _ _ _ Hw).
-      + exfalso. exact (send_not_broken _ _ _ _ _ _ _ _ _ Hw).
+    - exfalso. exact (send_no_panic _ _ _ _ _ _ _ _ _ _ _ Hlen P).
+    - destruct w as [r|r| |]; [exists r; rewrite Hw; destruct p; reflexivity| | |].
+      + exfalso. exact (send_not_closed _ _ _ _ _ _ _ _ _ _ _ Hw).
+      + exfalso. exact (send_never_refused _ _ _ _ _ _ _ _ _ _ Hw).
+      + exfalso. exact (send_not_broken _ _ _ _ _ _ _ _ _ _ Hw).
   Qed.
 
-  Lemma pair_hist_eq p secure exs :
-    Forall ex_in_domain exs ->
-    pair_hist checked ops alt e416 p true secure exs = map (fun e => Some (send_ex checked ops alt e416 p secure e)) exs.
+  Lemma send_ex_is_resp p secure e : ex_ok e -> is_resp (Some (send_ex checked ops alt e416 p secure e)) = true.
   Proof.
-    intros Hd. unfold pair_hist. rewrite <- (map_map (send_ex checked ops alt e416 p secure) Some), <- ex_seq.
+    intros He. destruct (send_ex_resp p secure e He) as [r Hr]. rewrite Hr.
+    destruct (match p with H1 => ex_closes e | H2 => false end); reflexivity.
+  Qed.
+
+  Lemma close_only_last_app (f : exch -> outcome wreply) exs tail :
+    Forall (fun e => forall x, f e <> Ok (WClosed x)) exs -> (length tail <= 1)%nat ->
+    close_only_last (map f (exs ++ tail)).
+  Proof.
+    intros F L. induction F as [|e exs He F IH]; cbn [app map].
+    - destruct tail as [|t [|t' tail']]; cbn [map close_only_last length] in *; [exact I | split; exact I | lia].
+    - cbn [close_only_last]. split; [|exact IH].
+      destruct (map f (exs ++ tail)); [exact I | exact He].
+  Qed.
+
+  Lemma pair_hist_eq p secure exs tail :
+    Forall ex_ok (exs ++ tail) -> Forall (fun e => ex_closes e = false) exs -> (length tail <= 1)%nat ->
+    pair_hist checked ops alt e416 p true secure (exs ++ tail)
+    = map (fun e => Some (send_ex checked ops alt e416 p secure e)) (exs ++ tail).
+  Proof.
+    intros Hd Hc Hl. unfold pair_hist. rewrite <- (map_map (send_ex checked ops alt e416 p secure) Some), <- ex_seq.
     destruct p; [|apply conn_loop_h2].
-    apply conn_loop_h1.
+    apply conn_loop_h1_last.
     - apply Forall_forall. intros e He. exact (proj1 (proj1 (Forall_forall _ _) Hd e He)).
     - rewrite ex_seq. apply Forall_forall. intros w Hw. apply in_map_iff in Hw as (e & <- & He).
       destruct (send_ex_resp H1 secure e (proj1 (Forall_forall _ _) Hd e He)) as [r Hr]. rewrite Hr.
-      eexists; split; [reflexivity | discriminate].
+      eexists; split; [reflexivity | destruct (ex_closes e); discriminate].
+    - rewrite ex_seq. apply close_only_last_app; [|exact Hl].
+      apply Forall_forall. intros e He x Hx.
+      assert (Hok : ex_ok e) by (apply (proj1 (Forall_forall _ _) Hd); apply in_or_app; left; exact He).
+      destruct (send_ex_resp H1 secure e Hok) as [r Hr]. rewrite Hr in Hx.
+      rewrite (proj1 (Forall_forall _ _) Hc e He) in Hx. discriminate.
   Qed.
 
-  (** for EVERY history in the domain the model component equals the specification component: all requests are
-      answered with a response on both connections, and the answers agree up to [normalise] *)
-  Lemma pair_hist_answered secure1 exs :
-    Forall ex_in_domain exs ->
-    forallb is_resp (pair_hist checked ops alt e416 H1 true secure1 exs) = true /\
-    forallb is_resp (pair_hist checked ops alt e416 H2 true true exs) = true /\
-    map (option_map onorm) (pair_hist checked ops alt e416 H1 true secure1 exs)
-      = map (option_map onorm) (pair_hist checked ops alt e416 H2 true true exs).
+  (** for EVERY history in the domain — in which at most the last answer ends the HTTP/1 connection — the model
+      component equals the specification component: all requests are answered with a response on both connections,
+      and the answers agree up to [normalise] *)
+  Lemma pair_hist_answered secure1 exs tail :
+    Forall ex_ok (exs ++ tail) -> Forall (fun e => ex_closes e = false) exs -> (length tail <= 1)%nat ->
+    forallb is_resp (pair_hist checked ops alt e416 H1 true secure1 (exs ++ tail)) = true /\
+    forallb is_resp (pair_hist checked ops alt e416 H2 true true (exs ++ tail)) = true /\
+    map (option_map onorm) (pair_hist checked ops alt e416 H1 true secure1 (exs ++ tail))
+      = map (option_map onorm) (pair_hist checked ops alt e416 H2 true true (exs ++ tail)).
   Proof.
-    intros Hd. rewrite !pair_hist_eq by exact Hd.
-    assert (A : forall p secure, forallb is_resp (map (fun e => Some (send_ex checked ops alt e416 p secure e)) exs) = true).
+    intros Hd Hc Hl. rewrite !pair_hist_eq by assumption.
+    assert (A : forall p secure, forallb is_resp (map (fun e => Some (send_ex checked ops alt e416 p secure e)) (exs ++ tail)) = true).
     { intros p secure. apply forallb_forall. intros o Ho. apply in_map_iff in Ho as (e & <- & He).
-      destruct (send_ex_resp p secure e (proj1 (Forall_forall _ _) Hd e He)) as [r Hr]. rewrite Hr. reflexivity. }
+      apply send_ex_is_resp. exact (proj1 (Forall_forall _ _) Hd e He). }
     split; [apply A | split; [apply A|]].
     rewrite !map_map. apply map_ext_in. intros e He. cbn [option_map]. f_equal. unfold send_ex.
     destruct (ex_limited e); [apply send_direct_parity|].
     apply send_pipe_parity.
     - apply pkg_menu_oblivious. exact Hops.
     - apply pkg_menu_keeps_length. exact Hops.
-    - exact (proj2 (proj2 (proj1 (Forall_forall _ _) Hd e He))).
+    - exact (proj1 (proj2 (proj2 (proj1 (Forall_forall _ _) Hd e He)))).
   Qed.
 End PairHist.
 
@@ -1508,7 +1764,7 @@ Lemma unread_body_v0_refuted_lemma : exists checked ops alt e416 exs,
   forallb is_resp (pair_hist checked ops alt e416 H1 true true exs) = true.
 Proof.
   exists false, [], None, wit_page,
-    [mkEx M_OTHER (Some (B "bytes=10-4")) true wit_page 700 None false None; mkEx M_GET None true wit_page 0 None false None].
+    [mkEx M_OTHER (Some (B "bytes=10-4")) true wit_page 700 None false None []; mkEx M_GET None true wit_page 0 None false None []].
   split; [|vm_compute; repeat split].
   constructor; [|constructor; [|constructor]]; cbn [ex_method ex_blen]; intros H; [discriminate H | reflexivity].
 Qed.
@@ -1519,6 +1775,6 @@ Lemma undeclared_body_refuted_lemma : exists checked ops alt e416 exs,
   forallb is_resp (pair_hist checked ops alt e416 H1 true true exs) = false /\
   forallb is_resp (pair_hist checked ops alt e416 H2 true true exs) = true.
 Proof.
-  exists false, [], None, wit_page, [mkEx M_GET None true wit_page 5 None false None; mkEx M_GET None true wit_page 0 None false None].
+  exists false, [], None, wit_page, [mkEx M_GET None true wit_page 5 None false None []; mkEx M_GET None true wit_page 0 None false None []].
   vm_compute. split; reflexivity.
 Qed.
